@@ -39,7 +39,7 @@ def run(ctx: Ctx):
     bi = 0
     for k, cs in enumerate(sim_cfgs):
         for beh in dc.simulate(ctx, f"DEVS segmentations cfg{k}", cs, num=ctx.pick(120, 1500), depth=60, seed=ctx.seed + 30 + k):
-            conc = dd.CONCS[bi % 4]
+            conc = dd.CONCS_OFF[bi % len(dd.CONCS_OFF)]
             tr = dc.replay(ctx, beh, conc, cs, f"behaviour {bi}")
             ctx.evaluations += 1
             cmds = [s["op"]["a"] for _, _, s in beh if s["op"]["a"] in ("Start", "Step", "RunUpTo", "RunUpToIncl", "Pause")]
@@ -53,7 +53,7 @@ def run(ctx: Ctx):
                 break
     n = ctx.pick(250, 3000)
     for i in range(n):
-        conc = dd.CONCS[i % 4]
+        conc = dd.CONCS_OFF[i % len(dd.CONCS_OFF)]
         end_t, warm_t = ctx.rng.choice([(4, 2), (6, 0), (5, 5)])
         ctl = dc.random_run(ctx, ctx.rng, conc, end_t, warm_t, "pause", cmds=SEG, ncmds=ctx.rng.choice([4, 8, 12]),
                             maxev=ctx.rng.choice([6, 12, 20]))
